@@ -5,13 +5,13 @@ from .state import *  # noqa
 from .vals import *   # noqa
 from .registry import clause_text, clause_active
 import re as _re
-TRACE_FN = _re.compile(r"\b(effect|no_effect|effect_count|effect_result|effect_arg|effect_arg_nth|effect_with_arg|effect_before|at_effect|reached_loop|maybe_effect|no_effect_here|writes_count)\(")
+TRACE_FN = _re.compile(r"\b(effect|no_effect|effect_count|effect_result|effect_arg|effect_arg_nth|effect_with_arg|effect_before|at_effect|reached_loop|maybe_effect|no_effect_here|effect_here|writes_count)\(")
 
 
 SPEC_FUNCS = {"old", "implies", "forall", "exists", "isint", "isstr", "isnone", "isbool", "isref", "ispath", "isfloat",
               "isbytes", "elems", "at", "length", "result", "iff", "count_where", "isclass", "keys", "lookup", "haskey",
               "distinct", "isfile", "isdir", "exists_path", "issymlink", "fs_text", "fs_target", "effect", "no_effect",
-              "effect_count", "fresh", "unchanged", "ite", "seq_eq", "raised", "isfresh", "forall_keys", "forall_val", "isregular", "isabsent", "effect_before", "effect_result", "at_effect", "fs_read", "parses_int", "writes_count", "effect_arg", "bm_self", "p_joinp", "dict_unchanged", "reached_loop", "maybe_effect", "forall_obj", "effect_with_arg", "monotone_true", "at_iteration_start", "p_relative_to", "no_effect_here", "effect_arg_nth", "getattr_dyn", "py_equal"}
+              "effect_count", "fresh", "unchanged", "ite", "seq_eq", "raised", "isfresh", "forall_keys", "forall_val", "isregular", "isabsent", "effect_before", "effect_result", "at_effect", "fs_read", "parses_int", "writes_count", "effect_arg", "bm_self", "p_joinp", "dict_unchanged", "reached_loop", "maybe_effect", "forall_obj", "effect_here", "effect_with_arg", "monotone_true", "at_iteration_start", "p_relative_to", "no_effect_here", "effect_arg_nth", "getattr_dyn", "py_equal"}
 
 
 class CallMixin:
